@@ -216,8 +216,12 @@ class RealFloat__round_at_stochastic(Contract):
     split = ['rm']
     # path-queries that neither prove nor refute within budget (nonlinear: nested divisions by
     # symbolic powers of two) fall back to a bounded check, exponents/widths <= 12, reported as bounded
+    # `opaque`: the final call self._round_at(p, n, emin, RAZ|RTZ) is specified by rnd_at(self, p, n, mode); its
+    # definition is not needed to show that the *choice* of mode is right, so calls rnd_at(self, p, n, .) are
+    # abstracted to an uninterpreted function of the mode (the extended-precision call rnd_at(self, None, n-k, rm)
+    # stays transparent)
     options = {'call_counts': {'RealFloat._generate_randbits': 1}, 'bounded_fallback': 12, 'bounded_ms': 60000,
-               'split_heavy': True}
+               'split_heavy': True, 'opaque': {'rnd_at': [['self', 'p', 'n'], 'tuple[int, int, bool, bool]']}}
 
     def pre(self, p, n, emin, rm, num_randbits, rng, exact):
         return {
